@@ -2,7 +2,6 @@ package kafka
 
 import (
 	"bytes"
-	"time"
 )
 
 const recordBatchHeaderSize int32 = 0 +
@@ -26,7 +25,7 @@ func recordBatchSize(msgs ...Message) (size int32) {
 
 	for i := range msgs {
 		msg := &msgs[i]
-		msz := recordSize(msg, msg.Time.Sub(baseTime), int64(i))
+		msz := recordSize(msg, timestamp(msg.Time)-timestamp(baseTime), int64(i))
 		size += int32(msz + varIntLen(int64(msz)))
 	}
 
@@ -95,9 +94,9 @@ func (r *recordBatch) writeTo(wb *writeBuffer) {
 	}
 }
 
-func recordSize(msg *Message, timestampDelta time.Duration, offsetDelta int64) int {
+func recordSize(msg *Message, timestampDelta int64, offsetDelta int64) int {
 	return 1 + // attributes
-		varIntLen(int64(milliseconds(timestampDelta))) +
+		varIntLen(timestampDelta) +
 		varIntLen(offsetDelta) +
 		varBytesLen(msg.Key) +
 		varBytesLen(msg.Value) +
